@@ -4,6 +4,7 @@
 from __future__ import annotations
 
 import json
+from dataclasses import fields as getfields
 from pathlib import Path, PosixPath, WindowsPath
 from typing import Any, Callable
 
@@ -107,11 +108,14 @@ def _load_expression(expression: dict) -> expressions.Expr:
     # in `a.b.c`, `c` links to `b` which links to `a`.
     # In `(a or b).c` however, `c` does not link to `(a or b)`,
     # as `(a or b)` is not a name and wouldn't allow to resolve `c`.
+    # An attribute accessed on a literal, as in `"a".join`, links to `str` (like when it is built).
     if cls is expressions.ExprAttribute:
         previous = None
-        for value in expr.values:
+        for index, value in enumerate(expr.values):
             if previous is not None:
                 value.parent = previous
+            elif index == 1 and isinstance(expr.values[0], str) and isinstance(value, expressions.ExprName):
+                value.parent = "str"
             if isinstance(value, expressions.ExprName):
                 previous = value
     return expr
@@ -127,14 +131,20 @@ def _load_parameter(obj_dict: dict[str, Any]) -> Parameter:
     )
 
 
-def _attach_parent_to_expr(expr: expressions.Expr | str | None, parent: Module | Class) -> None:
-    if not isinstance(expr, expressions.Expr):
-        return
-    # Names at any depth must be attached, except the ones chained
-    # in an attribute expression (`b` and `c` in `a.b.c` resolve through `a`).
-    for elem in expr.iterate(flat=True):
-        if isinstance(elem, expressions.ExprName) and not isinstance(elem.parent, expressions.ExprName):
-            elem.parent = parent
+def _attach_parent_to_expr(expr: Any, parent: Module | Class) -> None:
+    # Names at any depth must be attached, except the ones following the first value
+    # of an attribute expression (`b` and `c` in `a.b.c` resolve through `a`,
+    # and `c` in `(a or b).c` or `"a".c` is not looked up in the scope either).
+    if isinstance(expr, (list, tuple)):
+        for elem in expr:
+            _attach_parent_to_expr(elem, parent)
+    elif isinstance(expr, expressions.ExprName):
+        expr.parent = parent
+    elif isinstance(expr, expressions.ExprAttribute):
+        _attach_parent_to_expr(expr.values[0], parent)
+    elif isinstance(expr, expressions.Expr):
+        for field in getfields(expr):
+            _attach_parent_to_expr(getattr(expr, field.name), parent)
 
 
 def _attach_parent_to_exprs(obj: Class | Function | Attribute, parent: Module | Class) -> None:
